@@ -18,7 +18,10 @@ def draw_items(rng, ids, n, nkeys=3, cls=0, mixed=False):
         c = cls
         if mixed and rng.random() < 0.3:
             c = 1
-        out.append(Obj(ids.next(), rng.randrange(nkeys), c))
+        if out and rng.random() < 0.1:
+            out.append(out[-1])          # the very same object twice in a row (a repeated record)
+        else:
+            out.append(Obj(ids.next(), rng.randrange(nkeys), c))
     return out
 
 
